@@ -274,6 +274,15 @@ def run(ctx):
     # of the entry point is used while a program is attached (shared with C06 / C16)
     import importlib as _il
     _il.import_module("rules.c06").snapshot_slots(db, rep, "D8-LIVE-CODE")
+    # D9: what generated code reads from the executor besides its inputs it has stored itself before (shared with C03 D8 / D10):
+    # otherwise the result of a run depends on what the same executor (or the stack) held before
+    import emitstate as _es, emitsym as _esym
+    _names = {}
+    for _fld in db.record("OrcExecutor")["fields"]:
+        _names.setdefault(_fld["off"], _fld["name"])
+    _es.check(db.tu("orcprogram-x86"), rep, "D9-COUNTERS-DEFINED", where, offset_names=_names)
+    for _nm in ("orc_x86_emit_split_2_regions", "orc_x86_emit_split_3_regions"):
+        _esym.check_tiling(db.func(_nm, "orcprogram-x86"), rep, "D9-REGION-TILING", where)
 
 
 def _codeptr_skips(f):
